@@ -10,7 +10,6 @@ Local Open Scope Z_scope.
 Section Kahn.
   Context {K : Type} (keqb : K -> K -> bool) (kleb : K -> K -> bool) (sortable : list K -> bool).
   Hypothesis Heq : forall a b, keqb a b = true <-> a = b.
-  Hypothesis Hsort : forall l, sortable l = true.
 
   Definition kmem (x : K) (l : list K) : bool := existsb (keqb x) l.
   Lemma kmem_in x l : kmem x l = true <-> In x l.
@@ -100,6 +99,8 @@ Section Kahn.
   Variable graph : list (K * list K).
   Hypothesis Hnd : NoDup nodes.
   Hypothesis Hkeys : map fst graph = nodes.
+  (* sorting a round cannot fail: only lists of nodes are sorted *)
+  Hypothesis Hsort : forall l, (forall x, In x l -> In x nodes) -> sortable l = true.
 
   Definition edges : list (K * K) := flat_map (fun e => map (pair (fst e)) (snd e)) graph.
 
@@ -308,7 +309,7 @@ Section Kahn.
     - destruct (Nat.leb_spec (length nodes) (length acc)); [eapply finished; eauto | lia].
     - destruct (Nat.leb_spec (length nodes) (length acc)); [eapply finished; eauto|].
       destruct (map fst (filter (fun nd => snd nd =? 0) deg)) as [|r0 rs] eqn:Er; [reflexivity|].
-      rewrite Hsort. cbn [negb].
+      rewrite Hsort by (intros x0 Hx0; rewrite <- Er in Hx0; apply in_map_iff in Hx0; destruct Hx0 as (p0 & <- & Hp0); apply filter_In in Hp0; rewrite <- (ki_keys _ _ HI); apply in_map; tauto). cbn [negb].
       assert (Hnd' : NoDup (isort kleb (r0 :: rs))).
       { eapply Permutation_NoDup; [apply Permutation_sym, isort_perm|]. rewrite <- Er. apply nodup_map_fst_filter.
         rewrite (ki_keys _ _ HI). exact Hnd. }
@@ -361,7 +362,7 @@ Section Kahn.
         destruct (Hclosed a x Ha) as [Han _]. specialize (Hmax a Han Hn). specialize (Hrank a x Ha). lia. }
       assert (Hxin : In x (map fst (filter (fun nd => snd nd =? 0) deg))) by (apply (filter_zero_spec deg acc x HI); auto).
       destruct (map fst (filter (fun nd => snd nd =? 0) deg)) as [|r0 rs] eqn:Er; [destruct Hxin|].
-      rewrite Hsort. cbn [negb].
+      rewrite Hsort by (intros x0 Hx0; rewrite <- Er in Hx0; apply in_map_iff in Hx0; destruct Hx0 as (p0 & <- & Hp0); apply filter_In in Hp0; rewrite <- (ki_keys _ _ HI); apply in_map; tauto). cbn [negb].
       assert (Hnd' : NoDup (isort kleb (r0 :: rs))).
       { eapply Permutation_NoDup; [apply Permutation_sym, isort_perm|]. rewrite <- Er. apply nodup_map_fst_filter.
         rewrite (ki_keys _ _ HI). exact Hnd. }
@@ -378,11 +379,11 @@ End Kahn.
 Section TopOrder.
   Context {K : Type} (keqb : K -> K -> bool) (kleb : K -> K -> bool) (sortable : list K -> bool).
   Hypothesis Heq : forall a b, keqb a b = true <-> a = b.
-  Hypothesis Hsort : forall l, sortable l = true.
   Variable nodes : list K.
   Variable graph : list (K * list K).
   Hypothesis Hnd : NoDup nodes.
   Hypothesis Hkeys : map fst graph = nodes.
+  Hypothesis Hsort : forall l, (forall x, In x l -> In x nodes) -> sortable l = true.
 
   Definition gedges (g : list (K * list K)) : list (K * K) := flat_map (fun e => map (pair (fst e)) (snd e)) g.
   Definition closed_in (g : list (K * list K)) : Prop := forall a b, In (a, b) (gedges g) -> In a nodes /\ In b nodes.
@@ -444,7 +445,7 @@ Section TopOrder.
   Proof. unfold zeros. rewrite map_map. cbn. apply map_id. Qed.
   Lemma zeros_get x : dget keqb zeros x = 0.
   Proof.
-    unfold dget, zeros. clear Hnd Hkeys. induction nodes as [|n l IH]; cbn; [reflexivity|]. destruct (keqb x n); [reflexivity | exact IH].
+    unfold dget, zeros. clear Hnd Hkeys Hsort. induction nodes as [|n l IH]; cbn; [reflexivity|]. destruct (keqb x n); [reflexivity | exact IH].
   Qed.
 
   Lemma kinv0 deg : closed_in graph -> map fst deg = nodes -> (forall x, dget keqb deg x = Z.of_nat (inc graph x)) ->
@@ -468,7 +469,7 @@ Section TopOrder.
     destruct (rfold (count_src keqb nodes) graph zeros) as [deg|e]; cbn [bind]; [|apply Hc].
     destruct Hc as (Hcl & Hk & Hg).
     assert (HI : KInv keqb nodes graph deg []) by (apply kinv0; auto; intros x; rewrite Hg, zeros_get; lia).
-    pose proof (rounds_sound keqb kleb sortable Heq Hsort nodes graph Hnd Hkeys Hcl (S (length nodes)) deg [] HI) as Hr.
+    pose proof (rounds_sound keqb kleb sortable Heq nodes graph Hnd Hkeys Hsort Hcl (S (length nodes)) deg [] HI) as Hr.
     cbn [length Nat.add] in Hr. specialize (Hr (Nat.lt_succ_diag_r _)).
     destruct (top_rounds keqb kleb sortable (S (length nodes)) (length nodes) graph deg []); auto.
   Qed.
@@ -481,7 +482,7 @@ Section TopOrder.
     destruct (rfold (count_src keqb nodes) graph zeros) as [deg|e]; cbn [bind]; [|destruct Hc as [_ Hn]; contradiction].
     destruct Hc as (_ & Hk & Hg).
     assert (HI : KInv keqb nodes graph deg []) by (apply kinv0; auto; intros x; rewrite Hg, zeros_get; lia).
-    apply (rounds_complete keqb kleb sortable Heq Hsort nodes graph Hnd Hkeys Hcl rank Hrank (S (length nodes)) deg [] HI).
+    apply (rounds_complete keqb kleb sortable Heq nodes graph Hnd Hkeys Hsort Hcl rank Hrank (S (length nodes)) deg [] HI).
     cbn. lia.
   Qed.
 End TopOrder.
